@@ -161,6 +161,17 @@ func (en *engine) feed(dv *dpVar, raw []byte, link uint16, headroom int, sc *sce
 				}
 			}
 		}
+		// byte level: checksum of every emitted message, authenticator input of every third
+		if res.SlowErr == nil {
+			if op, ans, ok := ckOp(res.Out); ok {
+				e.Op(op, ans, "ck/"+fmt.Sprint(res.SpType))
+			}
+			if en.scmpEmitted%3 == 0 || stream == "flaw-max" {
+				if op, ans, ok := auOp(res.Out); ok {
+					e.Op(op, ans, "au/"+fmt.Sprint(res.SpType))
+				}
+			}
+		}
 		// model correspondence
 		known := reqAuthKnown
 		if at, err := parsePkt(res.AtSlow); err == nil {
@@ -253,6 +264,32 @@ func main() {
 		"Every datagram goes link.receive -> computeProcID -> processPkt -> slow path as in the router. " +
 		"non-trivial = reached the fast path and was not discarded (or STUN reply); distinct by (data plane, link, bytes)"
 
+	if f := os.Getenv("VERIF_SCMP_EPICPTR"); f != "" {
+		// one concrete EPIC packet with a bad hop MAC and the router's answer (report to the lead)
+		for i := 0; i < 2000; i++ {
+			sc := en.g.flawed(flawTable[0], false)
+			if sc.ptype != "epic" || sc.l4 != l4UDP || sc.kind != "transit" {
+				continue
+			}
+			raw, lay := en.g.b.build(sc)
+			dv := en.dvs[0]
+			o := dv.run(raw, sc.link, 512, true)
+			if o.res.Disp != "slow" || o.res.SlowErr != nil {
+				continue
+			}
+			at, _ := parsePkt(o.res.AtSlow)
+			doc := map[string]any{"raw": hex.EncodeToString(raw), "link": sc.link, "dp": dv.name,
+				"scmp_out": hex.EncodeToString(o.res.Out), "request": fmt.Sprintf("%d/%d", o.res.SpType, o.res.SpCode),
+				"pointer_in_message": o.res.SpPtr,
+				"offset_of_current_hop_field_in_packet": lay.pathOff + 4 + 8*lay.numINF + 12*int(at.rawPath.PathMeta.CurrHF),
+				"epic_header_bytes_ignored": 16, "scenario": sc.String()}
+			b, _ := json.MarshalIndent(doc, "", " ")
+			_ = os.WriteFile(f, b, 0o644)
+			fmt.Println(string(b))
+			return
+		}
+		return
+	}
 	if os.Getenv("VERIF_SCMP_DEBUG") != "" {
 		_ = log.Setup(log.Config{Console: log.ConsoleConfig{Level: "debug"}})
 		for i := 0; i < 400; i++ {
